@@ -47,13 +47,13 @@ let hex (l : z list) : string =
 let errname (e : errno option) : string =
   match e with
   | None -> "-"
-  | Some EAGAIN -> "EAGAIN" | Some EPROTO -> "EPROTO" | Some ECONNRESET -> "ECONNRESET" | Some EIO -> "EIO"
+  | Some EAGAIN -> "EAGAIN" | Some EPROTO -> "EPROTO" | Some ECONNRESET -> "ECONNRESET" | Some EIO -> "EIO" | Some EINTR -> "EINTR"
 
 let rq_s (log : rqlog) : string =
   match log with
   | [] -> "-"
   | _ -> String.concat "," (List.map (fun ((d, n), t) ->
-           string_of_z d ^ ":" ^ string_of_z n ^ ":" ^ (match t with QData k -> string_of_z k | QAgain -> "a" | QEof -> "e" | QErr -> "x")) log)
+           string_of_z d ^ ":" ^ string_of_z n ^ ":" ^ (match t with QData k -> string_of_z k | QAgain -> "a" | QEof -> "e" | QErr EINTR -> "i" | QErr _ -> "x")) log)
 
 let w = ref ws_init
 let stream = ref ([] : z list)
@@ -82,7 +82,7 @@ let () =
         Printf.printf "stream %d\n" !nstream
     | "sched" :: items ->
         let ev s = match s.[0] with
-          | 'a' -> RAgain | 'e' -> REof | 'x' -> RErr | _ -> RAvail (z_of_int (int_of_string s)) in
+          | 'a' -> RAgain | 'e' -> REof | 'x' -> RErr ECONNRESET | 'i' -> RErr EINTR | _ -> RAvail (z_of_int (int_of_string s)) in
         let l = List.map ev items in
         sched := !sched @ l; nsched := !nsched + List.length l;
         Printf.printf "sched %d\n" !nsched
@@ -119,12 +119,12 @@ let () =
         (match b64_pton src (z_of_int (int_of_string ts)) with
          | Some out -> Printf.printf "%s ret=%d out=%s\n" op (List.length out) (hex out)
          | None -> Printf.printf "%s ret=-1 out=-\n" op)
-    | ["hs"; h] ->
+    | [("hs" | "hst") as op; h] ->
         let path_s p = match p with None -> "~" | Some l -> hex l in
-        (match ws_handshake (unhex h) with
-         | HsFault -> print_endline "hs FAULT"
-         | HsPlain -> print_endline "hs ok=1 ws=0 b64=-1 path=~ resp=-"
-         | HsFail p -> Printf.printf "hs ok=0 ws=0 b64=-1 path=%s resp=-\n" (path_s p)
-         | HsOk (p, b, r) -> Printf.printf "hs ok=1 ws=1 b64=%d path=%s resp=%s\n" (if b then 1 else 0) (path_s p) (hex r))
+        (match ws_handshake (op = "hst") (unhex h) with
+         | HsFault -> Printf.printf "%s FAULT\n" op
+         | HsPlain -> Printf.printf "%s ok=1 ws=0 b64=-1 path=~ resp=-\n" op
+         | HsFail p -> Printf.printf "%s ok=0 ws=0 b64=-1 path=%s resp=-\n" op (path_s p)
+         | HsOk (p, b, r) -> Printf.printf "%s ok=1 ws=1 b64=%d path=%s resp=%s\n" op (if b then 1 else 0) (path_s p) (hex r))
     | ["sha1"; h] -> Printf.printf "sha1 ok=1 out=%s\n" (hex (sha1 (unhex h)))
     | _ -> Printf.printf "?? %s\n" line)
